@@ -95,6 +95,27 @@ func runC06(c *engine.Ctx) {
 	o.BareList = true
 	o.LongPipelines = true
 	doc := o.Pipeline()
+	if p.Draw(8, "cfg:commandless-group") == 7 {
+		// a group (possibly inside other groups) that holds no command step at all - only waits, inputs,
+		// triggers and, half the time, a step of unknown kind
+		inner := gen.Seq(gen.Str("wait"), gen.Map().Set("trigger", gen.Str("downstream")))
+		if p.Draw(2, "cfg:commandless-unknown") == 1 {
+			inner.Seq = append(inner.Seq, gen.Map().Set("type", gen.Str("mystery")).Set("x", gen.Int(1)))
+		}
+		g := gen.Map().Set("group", gen.Str("no commands here")).Set("steps", inner)
+		for d := p.Draw(3, "cfg:commandless-depth"); d > 0; d-- {
+			g = gen.Map().Set("group", gen.Str("outer")).Set("steps", gen.Seq(gen.Map().Set("block", gen.Str("hold")), g))
+		}
+		steps := doc
+		if doc.Kind == gen.KMap {
+			steps = doc.Get("steps")
+		}
+		if steps != nil && steps.Kind == gen.KSeq {
+			at := p.Draw(len(steps.Seq)+1, "cfg:commandless-at")
+			steps.Seq = append(steps.Seq[:at:at], append([]*gen.Node{g}, steps.Seq[at:]...)...)
+			c.Probe("commandless_groups")
+		}
+	}
 	src, format := gen.RenderMaybeMerged(p, doc, true)
 	c.Ev("doc", format, len(src), tape.HashString(string(src)))
 	c.Sample = map[string]any{"format": format, "document": truncate(string(src), 1500), "key": kp.kind}
